@@ -25,6 +25,7 @@ import (
 	"github.com/scrapli/scrapligo/driver/network"
 	"github.com/scrapli/scrapligo/driver/opoptions"
 	"github.com/scrapli/scrapligo/driver/options"
+	"github.com/scrapli/scrapligo/transport"
 	"github.com/scrapli/scrapligo/util"
 
 	"verif/internal/devsim"
@@ -129,6 +130,12 @@ type Desc struct {
 	HelloPlace   string `json:"hello_place,omitempty"`
 	// CloseErr: the transport's Close returns an error (after closing).
 	CloseErr bool `json:"close_err,omitempty"`
+	// Auth: the transport asks the channel for in-channel ssh authentication (as the system transport
+	// does): "ssh-nopw" = no prompt, the hello is there at open; "ssh-pw" = a known-hosts warning and
+	// a password prompt come first, the hello follows once the password line was written.
+	Auth string `json:"auth,omitempty"`
+	// NonASCII: number of capabilities containing 2-, 3- and 4-byte UTF-8 characters.
+	NonASCII int `json:"non_ascii,omitempty"`
 	// PrefVia says how the preference in force at Open time (Preferred) was stated: "" = through
 	// options.WithNetconfPreferredVersion only; "field" = by assigning the exported
 	// Driver.PreferredVersion after NewDriver, no option; "option-then-field" = the option carried
@@ -147,6 +154,9 @@ type Desc struct {
 	CapsWire []string `json:"caps_wire,omitempty"`
 	EscForms []string `json:"esc_forms,omitempty"` // classes of escape forms used (evidence)
 }
+
+// utf8Words: 2-, 3- and 4-byte UTF-8 characters for capability URIs.
+var utf8Words = []string{"überwachung", "café", "señal", "naïve-é", "監視", "設定€", "маршрут", "δίκτυο", "𝔘𝔫𝔦", "net😀work", "a𐍈b", "ü€😀"}
 
 // foreignKinds are the CLI-ish options; none of them applies to NETCONF session establishment.
 // (WithReturnChar other than LF is only used where the table does not select 1.1: the library writes
@@ -302,11 +312,37 @@ type timedDev struct {
 	place    string
 	sent     bool
 	sentOnRx bool // the hello was triggered by a client write, not by the timer
+	helloAt  int  // stream offset of the hello
+	auth     string
+	authed   bool
+	pwLine   []byte // what the client wrote while the password was asked for
 }
+
+const (
+	authPassword = "c09-S3cret/pw"
+	authBanner   = "Warning: Permanently added 'dev' (ED25519) to the list of known hosts.\r\nadmin@dev's password: "
+)
+
+// authConn additionally asks for in-channel ssh authentication.
+type authConn struct {
+	*faultyConn
+	ssh transport.SSHArgs
+}
+
+func (a *authConn) GetInChannelAuthType() transport.InChannelAuthType {
+	return transport.InChannelAuthSSH
+}
+
+func (a *authConn) GetSSHArgs() *transport.SSHArgs { return &a.ssh }
 
 func (t *timedDev) State() string { return t.srv.State() }
 
 func (t *timedDev) Start(c *devsim.Conn) {
+	if t.auth == "ssh-pw" {
+		c.Emit([]byte(authBanner))
+		c.Mark()
+		return
+	}
 	if !t.delayed {
 		t.emit(c, true)
 	}
@@ -317,6 +353,7 @@ func (t *timedDev) emit(c *devsim.Conn, mark bool) {
 		return
 	}
 	t.sent = true
+	t.helloAt = c.Generated()
 	c.Emit(t.hello)
 	if mark {
 		c.Mark()
@@ -324,6 +361,15 @@ func (t *timedDev) emit(c *devsim.Conn, mark bool) {
 }
 
 func (t *timedDev) Input(c *devsim.Conn, b []byte) {
+	if t.auth == "ssh-pw" && !t.authed {
+		// the password line: not echoed, not NETCONF
+		t.pwLine = append(t.pwLine, b...)
+		if bytes.IndexByte(b, '\n') >= 0 {
+			t.authed = true
+			t.emit(c, true)
+		}
+		return
+	}
 	if t.sent {
 		t.srv.Input(c, b)
 		return
@@ -765,6 +811,78 @@ func gen(tier string, seed int64) []mon.Case {
 			}
 		}
 	}
+	// --- non-ASCII characters in capability URIs x fine segmentations (1-byte reads included)
+	perUTF, perAuth := 4, 1
+	if tier == "thorough" {
+		perUTF, perAuth = 80, 20
+	}
+	r8 := rand.New(rand.NewSource(seed*7919 + 999999909))
+	for k := 0; k < perUTF; k++ {
+		for ci, c := range cells {
+			d := GenDesc(r8, c, (k+ci)%2 == 1, -1)
+			// a short hello (1-byte reads cost one read delay each): the base capabilities, <= 3 others
+			var keep []string
+			others := 0
+			for _, x := range d.Caps {
+				if x == cap10 || x == cap11 {
+					keep = append(keep, x)
+				} else if others < 3 {
+					keep = append(keep, x)
+					others++
+				}
+			}
+			d.Caps = keep
+			d.NonASCII = 1 + r8.Intn(3)
+			for j := 0; j < d.NonASCII; j++ {
+				w := utf8Words[r8.Intn(len(utf8Words))]
+				m := randName(r8, 3+r8.Intn(5))
+				x := []string{
+					"http://vendor.example/ns/yang/" + w + "?module=" + m,
+					"urn:example:yang:" + m + "?module=" + m + "&title=" + w + utf8Words[r8.Intn(len(utf8Words))],
+					"urn:" + w + ":" + m,
+				}[r8.Intn(3)]
+				at := r8.Intn(len(d.Caps) + 1)
+				d.Caps = append(d.Caps[:at], append([]string{x}, d.Caps[at:]...)...)
+			}
+			d.Traps, d.Amp = 0, true
+			for _, e := range d.Caps {
+				if e != cap10 && e != cap11 && (strings.Contains(e, cap10) || strings.Contains(e, cap11)) {
+					d.Traps++
+				}
+			}
+			d.Hello = buildHello(&d)
+			switch (k + ci) % 4 {
+			case 0, 1:
+				d.Seg = devsim.Seg{Mode: "fixed", Size: 1 + ((k+ci)/4)%3, Seed: r8.Int63()}
+			case 2:
+				d.Seg = devsim.Seg{Mode: "geom", Size: 2, Seed: r8.Int63()}
+			default:
+				d.Seg = devsim.Seg{Mode: "mix", Size: 5, Seed: r8.Int63()}
+			}
+			d.ReadDelay = 20
+			add(d)
+		}
+	}
+	// --- the negotiation matrix over a transport that asks for in-channel ssh authentication, with
+	// and without a password prompt, hellos of 10-60 capabilities (> 1000 and > 4000 bytes)
+	for k := 0; k < perAuth; k++ {
+		for ci, c := range cells {
+			for ai, auth := range []string{"ssh-nopw", "ssh-pw"} {
+				for si, minLen := range []int{1100, 4200} {
+					d := GenDesc(r8, c, (k+ci+ai+si)%2 == 1, -1)
+					d.Auth = auth
+					d.LFAfter = false
+					for i := 0; len(d.Caps) < 10 || len(buildHello(&d)) < minLen; i++ {
+						m := randName(r8, 6+r8.Intn(10))
+						d.Caps = append(d.Caps, "urn:vendor:yang:"+m+"?module="+m+";revision=2023-03-0"+strconv.Itoa(1+i%9))
+					}
+					d.Hello = buildHello(&d)
+					d.Seg = genSeg(r8, len(d.Hello))
+					add(d)
+				}
+			}
+		}
+	}
 	// --- the preference stated, changed or withdrawn through the exported PreferredVersion field
 	// between NewDriver and Open: what counts is what the user asks for when Open runs
 	perField := 3
@@ -1091,7 +1209,7 @@ func RunDesc(d Desc) mon.Result {
 		}
 		s.Send(cn, p, sizes)
 	}
-	dev := &timedDev{srv: srv, hello: hello, delayed: d.HelloDelayMs > 0, place: d.HelloPlace}
+	dev := &timedDev{srv: srv, hello: hello, delayed: d.HelloDelayMs > 0, place: d.HelloPlace, auth: d.Auth}
 	conn := devsim.NewConn(dev, devsim.Config{Seg: d.Seg, KeepData: true})
 	defer conn.Abandon()
 	fc := &faultyConn{Conn: conn, failAt: d.WriteFault}
@@ -1099,8 +1217,12 @@ func RunDesc(d Desc) mon.Result {
 		fc.closeErr = errClose
 	}
 
+	var impl transport.Implementation = fc
+	if d.Auth != "" {
+		impl = &authConn{faultyConn: fc}
+	}
 	opts := []util.Option{
-		options.WithCustomTransport(fc),
+		options.WithCustomTransport(impl),
 		options.WithTimeoutOps(openTimeout),
 		options.WithReadDelay(time.Duration(d.ReadDelay) * time.Microsecond),
 	}
@@ -1115,6 +1237,9 @@ func RunDesc(d Desc) mon.Result {
 	}
 	if d.SearchDepth > 0 {
 		opts = append(opts, options.WithPromptSearchDepth(d.SearchDepth))
+	}
+	if d.Auth != "" {
+		opts = append(opts, options.WithAuthPassword(authPassword), options.WithAuthUsername("admin"))
 	}
 	for _, f := range d.Foreign {
 		opts = append(opts, foreignOption(f, len(hello)))
@@ -1244,17 +1369,43 @@ func RunDesc(d Desc) mon.Result {
 
 	// landmarks of the hello's delivery
 	helloReads, insideEOM := 0, false
+	helloAt := 0
+	var pwLine []byte
+	conn.Do(func() { helloAt, pwLine = dev.helloAt, append([]byte(nil), dev.pwLine...) })
 	{
 		off := 0
 		eomAt := n - len(ncwire.EOM)
 		for _, e := range conn.Log() {
-			if e.Kind != "read" || off >= len(hello) {
+			if e.Kind != "read" {
+				continue
+			}
+			start := off
+			off += e.N
+			if off <= helloAt || start >= helloAt+len(hello) {
 				continue
 			}
 			helloReads++
-			off += e.N
-			if off > eomAt && off < n {
+			rel := off - helloAt
+			if rel > eomAt && rel < n {
 				insideEOM = true
+			}
+			if rel > 0 && rel < len(hello) && hello[rel]&0xC0 == 0x80 {
+				obs["read_boundary_inside_multibyte_character"]++
+			}
+		}
+	}
+	if d.NonASCII > 0 {
+		obs["non_ascii_capability_sessions"] = 1
+		tags = append(tags, "non-ascii-capabilities")
+	}
+	if d.Auth != "" {
+		obs["in_channel_auth_sessions"] = 1
+		tags = append(tags, "auth="+d.Auth, fmt.Sprintf("auth-hello>4000=%v", len(hello) > 4000))
+		if d.Auth == "ssh-pw" {
+			if string(pwLine) == authPassword+"\n" {
+				obs["password_lines_checked"] = 1
+			} else if len(pwLine) > 0 || err == nil {
+				bad(1, "c09/in-channel-auth:password-line", "the password prompt was answered with %q", pwLine)
 			}
 		}
 	}
@@ -1310,7 +1461,7 @@ func RunDesc(d Desc) mon.Result {
 		case errors.Is(err, util.ErrNetconfError):
 			obs["failed_as_required"] = 1
 		case timedOut(err):
-			judgeTimeout("open", err, len(hello))
+			judgeTimeout("open", err, helloAt+len(hello))
 		default:
 			k := "c09/error-class:" + cellName
 			if d.CloseErr {
@@ -1342,7 +1493,7 @@ func RunDesc(d Desc) mon.Result {
 			// hello went out - judged below like every successful open)
 			obs["open_failed_on_write_fault"] = 1
 		case timedOut(err):
-			judgeTimeout("open", err, len(hello))
+			judgeTimeout("open", err, helloAt+len(hello))
 		case strings.Contains(strings.ToLower(err.Error()), "sessionid"):
 			bad(0, "c09/session-id-rejected:"+sidClass(d.SessionID), "Open failed with %v; the hello's session-id %q is a legal lexical form", err, d.SessionID)
 		default:
@@ -1641,7 +1792,8 @@ func init() {
 			"capabilities of the hello, look-alikes, absent ones) and repeated lookups after Open judged against the hello sent; a one-shot transport write error at write 1, 2 (the open sequence) and 3 for every succeeding cell x echo; " +
 			"server hello sent 3/20/60 ms after open or at the client's first write, whichever is earlier, x echo on/off x placement relative to the echo (own message before it / contiguous with it / after it) for all cells; " +
 			"transport whose Close returns an error for all cells and hello-less messages; " +
-			"the preference stated, changed or withdrawn by assigning the exported Driver.PreferredVersion between NewDriver and Open (field only; option 1.0/1.1 then field) for all cells; " +
+			"capabilities containing 2-, 3- and 4-byte UTF-8 characters under 1-, 2-, 3-byte, geometric and mixed reads for all cells; the matrix over a transport that asks for in-channel ssh authentication " +
+			"(no prompt / known-hosts warning + password prompt, hello after the password line) with hellos of 10-60 capabilities (> 1100 and > 4200 bytes); the preference stated, changed or withdrawn by assigning the exported Driver.PreferredVersion between NewDriver and Open (field only; option 1.0/1.1 then field) for all cells; " +
 			"option lists that also carry 1-4 options meant for CLI drivers (prompt pattern, return char, small search depth, failed-when, privilege levels/desired privilege, small read size, login patterns) in PRNG order for all cells; " +
 			"capability texts written with the five predefined entities, literal > \" ', and escaped escapes (&amp;amp; &amp;lt; &amp;#38; &amp;#x26; ...) in query strings and paths, reference = encoding/xml character data. Non-trivial = prefixed element names, or the server's first message delivered in >= 2 transport reads, or a cell that must fail. " +
 			"Distinct = distinct descriptor hash.",
@@ -1657,6 +1809,7 @@ func init() {
 			"a transport Close that returns an error has nevertheless closed; the error identity of a failing negotiation and exactly one transport Close are judged all the same",
 			"capability escape forms judged: the five predefined entities and escaped escapes; numeric character references ON THE WIRE (&#38;, &#x26;) are generated only with numericRefsOnWire (off: the pinned library leaves them unresolved - reported finding, decision pending)",
 			"the preference that counts is the value of the exported Driver.PreferredVersion when Open is called, however it got there (option, direct assignment, cleared)",
+			"in-channel ssh authentication: at most one password prompt, answered once with the configured password; nothing in the banner or the hello matches the library's ssh error phrases, password or passphrase patterns; no echo while the password is asked for",
 			"foreign options: a user option that does not apply to NETCONF session establishment must not change the outcome; WithReturnChar other than LF only where the table does not select 1.1 (the library writes the return char as the LF of the chunked framing); WithPromptSearchDepth >= 32 (see next)",
 			"a LF after the hello's delimiter is generated when an earlier LF lies within the last PromptSearchDepth bytes (multi-line layouts), and in a small dedicated family where it does not (one-line hello longer than the depth, default 1000 and 8/12): there the pinned channel cuts its search window at that LF and never sees the delimiter - KNOWN finding, key c09/open-timeout:one-line-hello-over-search-depth-then-lf, decided from the descriptor; any other open timeout keeps the generic key",
 			"trusted base: ncwire strict codec, ncsim server model, encoding/xml, the table (12 lines)",
